@@ -372,6 +372,21 @@ func (vf *VFlow) walk(v ssa.Value, fl uint8, out LabelSet, seen map[string]bool,
 	case *ssa.TypeAssert:
 		vf.walk(x.X, fl, out, seen, depth+1)
 	case *ssa.Slice:
+		// sum := sha512.Sum384(data); sum[:] - a local array that is assigned as a whole: the slice holds what was assigned
+		if al, ok := x.X.(*ssa.Alloc); ok {
+			if _, isArr := al.Type().Underlying().(*types.Pointer).Elem().Underlying().(*types.Array); isArr {
+				n := 0
+				for _, ref := range nonDebugRefs(al) {
+					if st, isSt := ref.(*ssa.Store); isSt && st.Addr == ssa.Value(al) {
+						n++
+						vf.walk(st.Val, fl, out, seen, depth+1)
+					}
+				}
+				if n > 0 {
+					return
+				}
+			}
+		}
 		vf.walk(x.X, fl, out, seen, depth+1)
 	case *ssa.SliceToArrayPointer:
 		vf.walk(x.X, fl, out, seen, depth+1)
@@ -437,6 +452,16 @@ func isStringType(t types.Type) bool {
 
 // elemOf: provenance of an element of the container denoted by label l.
 func (vf *VFlow) elemOf(l string, fl uint8, out LabelSet, seen map[string]bool, depth int) {
+	if strings.HasPrefix(l, "keys:") {
+		// an element of maps.Keys(m): a key of m
+		base := strings.TrimPrefix(l, "keys:")
+		if strings.HasPrefix(base, "alloc:") {
+			vf.allocKeys(base, fl, out, seen, depth)
+		} else {
+			out.add(base+"[key]", fl)
+		}
+		return
+	}
 	if strings.HasPrefix(l, "alloc:") {
 		// elements stored into a locally made slice/array/map
 		vf.allocElems(l, fl, out, seen, depth)
@@ -536,6 +561,24 @@ func (vf *VFlow) callResult(t ssa.Value, idx int, fl uint8, out LabelSet, seen m
 		return
 	}
 	name := calleeName(c)
+	if i := strings.Index(name, "["); i >= 0 && (strings.HasPrefix(name, "slices.") || strings.HasPrefix(name, "maps.")) {
+		name = name[:i] // instantiated generic
+	}
+	switch name {
+	case "slices.Sorted", "slices.Collect", "slices.Clone", "slices.SortedFunc", "slices.SortedStableFunc", "slices.Values", "maps.Values", "slices.Compact":
+		// the same elements in another container / order
+		if len(com.Args) > 0 && idx == 0 {
+			vf.walk(com.Args[0], fl, out, seen, depth+1)
+			return
+		}
+	case "maps.Keys":
+		if len(com.Args) > 0 && idx == 0 {
+			for l := range vf.objLabels(com.Args[0], depth+1) {
+				out.add("keys:"+l, fl)
+			}
+			return
+		}
+	}
 	if name == "dyn" {
 		// unresolved function value: name it by where the function value comes from
 		for _, l := range vf.Labels(com.Value).leaves() {
